@@ -1,9 +1,8 @@
 \* C09 thorough tier - exhaustive instance of Http (module MC_Http).
-\*   Servers  S1 .. S6            Accepts  20 lists (AcceptsFull)
+\*   Servers  S1 .. S7            Accepts  20 lists (AcceptsFull)
 \*   Docs     21 documents (DocsFull: every anonymous / named single operation, every pair of kinds,
 \*            every order of query+mutation+subscription); everything else as in MC_Http.cfg
-\* Measured: 701,520 requests (116,920 per server), 3,625,840 distinct states, depth 9,
-\* 50 s with -workers 4 (without reading the export), ~25 s per server with -workers 1.
+\* Measured: see notes/C09.md (one TLC run per server with -workers 1).
 CONSTANTS
   Servers <- ServersFull
   Methods <- MethodsAll
